@@ -152,6 +152,11 @@ func main() {
 		os.Exit(4)
 	}()
 	if partial != "" {
+		lib.CheckpointNow = func() {
+			finish.Lock()
+			r.Write(partial)
+			finish.Unlock()
+		}
 		go func() {
 			for {
 				time.Sleep(10 * time.Second)
